@@ -30,8 +30,8 @@ Proof.
 Qed.
 
 (* ---- the loop, one 32-byte unit at a time ---- *)
-Lemma units_step st u r st' :
-  cat_parse_step st u = Some (st', false) -> parse_units (u :: r) st = parse_units r st'.
+Lemma units_step after st u r st' :
+  cat_parse_step st u = Some (st', false) -> parse_units after (u :: r) st = parse_units after r st'.
 Proof. intros Hs. cbn [parse_units]. rewrite Hs. reflexivity. Qed.
 
 Lemma entry_bytes_head e : exists t, entry_bytes e = e_boot_indicator e :: t.
@@ -100,24 +100,22 @@ Proof.
 Qed.
 
 (* the terminator: a unit starting with 0x00 when no section expects an entry *)
-Lemma step_term v i secs sa t r :
+Lemma step_term v i secs sa t :
   last_pending secs = false -> sections_sane secs = true ->
-  parse_units ((0 :: t) :: r) (PSections v i secs sa) = Some (mk_cat v i secs sa).
-Proof.
-  intros Hf Hs. cbn [parse_units cat_parse_step]. change (0 =? 0) with true. rewrite Hf, Hs. reflexivity.
-Qed.
+  cat_parse_step (PSections v i secs sa) (0 :: t) = Some (PSections v i secs sa, true).
+Proof. intros Hf Hs. cbn [cat_parse_step]. change (0 =? 0) with true. rewrite Hf, Hs. reflexivity. Qed.
 
 (* ---- whole lists of units ---- *)
-Lemma units_entries v i pre ind pid num ids sa r : forall todo done,
+Lemma units_entries after v i pre ind pid num ids sa r : forall todo done,
   forallb entry_ok todo = true -> zlen done + zlen todo = num ->
-  parse_units (map entry_bytes todo ++ r) (PSections v i (pre ++ [mk_header ind pid num ids done]) sa) =
-  parse_units r (PSections v i (pre ++ [mk_header ind pid num ids (done ++ todo)]) sa).
+  parse_units after (map entry_bytes todo ++ r) (PSections v i (pre ++ [mk_header ind pid num ids done]) sa) =
+  parse_units after r (PSections v i (pre ++ [mk_header ind pid num ids (done ++ todo)]) sa).
 Proof.
   induction todo as [|e todo IH]; intros done Ho Hn.
   - cbn [map app]. rewrite app_nil_r. reflexivity.
   - cbn [forallb] in Ho. apply andb_prop in Ho. destruct Ho as [Ho1 Ho2]. rewrite zlen_cons in Hn.
     pose proof (zlen_nonneg todo) as Hnn. cbn [map app].
-    rewrite (units_step _ _ _ _ (step_entry v i pre ind pid num ids done sa e Ho1 ltac:(lia))).
+    rewrite (units_step _ _ _ _ _ (step_entry v i pre ind pid num ids done sa e Ho1 ltac:(lia))).
     rewrite IH by (try assumption; rewrite zlen_app, zlen_cons, zlen_nil; lia).
     rewrite <- app_assoc. reflexivity.
 Qed.
@@ -133,30 +131,32 @@ Proof.
   apply andb_prop in H. destruct H as [H H1]. split; [exact H|split; [lia|exact H0]].
 Qed.
 
-Lemma units_sections v i sa r : forall ss pre,
+Lemma units_sections after v i sa r : forall ss pre,
   forallb section_ok ss = true ->
-  parse_units (sec_units ss ++ r) (PSections v i pre sa) = parse_units r (PSections v i (pre ++ ss) sa).
+  parse_units after (sec_units ss ++ r) (PSections v i pre sa) =
+  parse_units after r (PSections v i (pre ++ ss) sa).
 Proof.
   induction ss as [|s ss IH]; intros pre Ho.
   - cbn [sec_units app]. rewrite app_nil_r. reflexivity.
   - cbn [forallb] in Ho. apply andb_prop in Ho. destruct Ho as [Ho1 Ho2].
     destruct (section_ok_inv s Ho1) as (Hh & Hn & He).
     cbn [sec_units]. rewrite <- app_assoc. cbn [app].
-    rewrite (units_step _ _ _ _ (step_header v i pre sa s Hh)).
+    rewrite (units_step _ _ _ _ _ (step_header v i pre sa s Hh)).
     unfold header_set_entries.
-    rewrite (units_entries v i pre _ _ _ _ sa _ (h_entries s) []) by (try assumption; rewrite zlen_nil; lia).
+    rewrite (units_entries after v i pre _ _ _ _ sa _ (h_entries s) []) by (try assumption; rewrite zlen_nil; lia).
     cbn [app]. rewrite IH by assumption. rewrite <- app_assoc. cbn [app]. destruct s; reflexivity.
 Qed.
 
-Lemma units_standalone v i secs r : last_pending secs = false -> forall es sa,
+Lemma units_standalone after v i secs r : last_pending secs = false -> forall es sa,
   forallb entry_ok es = true -> forallb entry_bootable es = true ->
-  parse_units (map entry_bytes es ++ r) (PSections v i secs sa) = parse_units r (PSections v i secs (sa ++ es)).
+  parse_units after (map entry_bytes es ++ r) (PSections v i secs sa) =
+  parse_units after r (PSections v i secs (sa ++ es)).
 Proof.
   intros Hf. induction es as [|e es IH]; intros sa Ho Hb.
   - cbn [map app]. rewrite app_nil_r. reflexivity.
   - cbn [forallb] in Ho, Hb. apply andb_prop in Ho. apply andb_prop in Hb.
     destruct Ho as [Ho1 Ho2]. destruct Hb as [Hb1 Hb2]. cbn [map app].
-    rewrite (units_step _ _ _ _ (step_standalone v i secs sa e Ho1 Hb1 Hf)).
+    rewrite (units_step _ _ _ _ _ (step_standalone v i secs sa e Ho1 Hb1 Hf)).
     rewrite IH by assumption. rewrite <- app_assoc. reflexivity.
 Qed.
 
@@ -231,22 +231,32 @@ Lemma cat_wf_inv c : cat_wf c = true ->
 Proof. unfold cat_wf. intros H. andb_split H. repeat split; assumption. Qed.
 
 (* everything up to (not including) the terminator *)
-Lemma units_catalog c r : cat_wf c = true ->
-  parse_units (cat_units c ++ r) PExpectVal =
-  parse_units r (PSections (c_validation c) (c_initial c) (c_sections c) (c_standalone c)).
+Lemma units_catalog after c r : cat_wf c = true ->
+  parse_units after (cat_units c ++ r) PExpectVal =
+  parse_units after r (PSections (c_validation c) (c_initial c) (c_sections c) (c_standalone c)).
 Proof.
   intros H. destruct (cat_wf_inv c H) as (Hv & Hi & Hs & _ & Hso & Hsb).
   unfold cat_units. cbn [app].
-  rewrite (units_step _ _ _ _ (step_val _ Hv)), (units_step _ _ _ _ (step_init _ _ Hi)).
-  rewrite <- app_assoc, (units_sections _ _ _ _ _ [] Hs). cbn [app].
-  rewrite (units_standalone _ _ _ _ (sections_not_pending _ Hs) _ [] Hso Hsb). reflexivity.
+  rewrite (units_step _ _ _ _ _ (step_val _ Hv)), (units_step _ _ _ _ _ (step_init _ _ Hi)).
+  rewrite <- app_assoc, (units_sections _ _ _ _ _ _ [] Hs). cbn [app].
+  rewrite (units_standalone _ _ _ _ _ (sections_not_pending _ Hs) _ [] Hso Hsb). reflexivity.
 Qed.
 (* ... and the terminator *)
-Lemma units_catalog_term c t r : cat_wf c = true ->
-  parse_units (cat_units c ++ (0 :: t) :: r) PExpectVal = Some c.
+Lemma units_catalog_term after c t r : cat_wf c = true ->
+  parse_units after (cat_units c ++ (0 :: t) :: r) PExpectVal = Some c.
 Proof.
-  intros H. rewrite (units_catalog c _ H). destruct (cat_wf_inv c H) as (_ & _ & Hs & Hsane & _).
-  rewrite (step_term _ _ _ _ _ _ (sections_not_pending _ Hs) Hsane). destruct c; reflexivity.
+  intros H. rewrite (units_catalog _ c _ H). destruct (cat_wf_inv c H) as (_ & _ & Hs & Hsane & _).
+  cbn [parse_units]. rewrite (step_term _ _ _ _ _ (sections_not_pending _ Hs) Hsane).
+  destruct c; reflexivity.
+Qed.
+(* ... or, the units of the image being used up, the first synthetic zero unit *)
+Lemma units_catalog_zeros f c : cat_wf c = true ->
+  parse_units (parse_zeros (S f)) (cat_units c) PExpectVal = Some c.
+Proof.
+  intros H. rewrite <- (app_nil_r (cat_units c)), (units_catalog _ c _ H).
+  destruct (cat_wf_inv c H) as (_ & _ & Hs & Hsane & _).
+  cbn [parse_units parse_zeros repeat]. rewrite (step_term _ _ _ _ _ (sections_not_pending _ Hs) Hsane).
+  destruct c; reflexivity.
 Qed.
 
 Lemma cat_wf_record c : cat_wf c = true -> cat_record c = Some (cat_bytes c).
@@ -290,7 +300,7 @@ Proof.
     with (length (cat_units c) + S (length (cat_bytes c) - length (cat_units c)))%nat by lia.
   rewrite <- (app_nil_r (cat_bytes c)) at 2.
   rewrite cat_bytes_units, (read32_units _ (cat_units_32 c)). cbn [read32 firstn].
-  rewrite (units_catalog c _ H). reflexivity.
+  rewrite (units_catalog _ c _ H). reflexivity.
 Qed.
 
 (* The reader of _check_and_parse_eltorito: at most 64 units of the image, then zero units.  Every
@@ -306,12 +316,12 @@ Proof.
   assert (HN : (N <= 64)%nat) by lia.
   replace 64%nat with (N + (64 - N))%nat at 1 by lia.
   rewrite <- app_assoc, cat_bytes_units. unfold N at 1.
-  rewrite (read32_units _ (cat_units_32 c)), <- app_assoc.
+  rewrite (read32_units _ (cat_units_32 c)).
   fold N. rewrite <- cat_bytes_units.
   replace (2048 - length (cat_bytes c))%nat with (32 * (64 - N))%nat by lia.
   destruct (64 - N)%nat as [|m] eqn:Em.
-  - cbn [read32 app]. unfold zero_units. replace (Z.to_nat 65538) with (S (Z.to_nat 65537)) by lia.
-    cbn [repeat]. apply units_catalog_term, H.
+  - cbn [read32]. rewrite app_nil_r. unfold zero_units.
+    replace (Z.to_nat 65538) with (S (Z.to_nat 65537)) by lia. apply units_catalog_zeros, H.
   - replace (32 * S m)%nat with (S (31 + 32 * m))%nat by lia. cbn [read32 repeat app firstn].
     apply units_catalog_term, H.
 Qed.
